@@ -848,8 +848,21 @@ fn check_statics(case: &SCase, ctx: &mut Ctx, drv: &mut StaticsDriver) -> Verdic
         }
     }
     let touched: BTreeSet<usize> = touches.keys().copied().collect();
-    if touched != reach {
-        drv.infra.push(format!("touched {touched:?} but model reaches {reach:?}"));
+    // statics that destructors of discarded candidate families may additionally reach (whether a
+    // candidate is discarded depends on who wins a first-access race, so these are optional)
+    let mut reach_max = reach.clone();
+    for i in 0..N {
+        if reach_max.contains(&i) {
+            let d = case.deps[i] | case.drop_deps.get(i).copied().unwrap_or(0);
+            for j in i + 1..N {
+                if (d >> j) & 1 == 1 {
+                    reach_max.insert(j);
+                }
+            }
+        }
+    }
+    if !reach.is_subset(&touched) || !touched.is_subset(&reach_max) {
+        drv.infra.push(format!("touched {touched:?} but model reaches {reach:?} (at most {reach_max:?})"));
         return Ok(());
     }
 
@@ -925,7 +938,7 @@ fn check_statics(case: &SCase, ctx: &mut Ctx, drv: &mut StaticsDriver) -> Verdic
         }
     }
     for idx in inits.keys() {
-        if !reach.contains(idx) {
+        if !reach_max.contains(idx) {
             drv.infra.push(format!("initialiser of unreachable static {idx} ran"));
         }
     }
